@@ -110,8 +110,95 @@ def _bubble_view(w: Walker, li: LoopInfo):
     return None
 
 
+def shift_view(w):
+    """The insertion written as a shift: the candidate sits in the scratch slot k (`d[k] = w; held = d[k]`), every larger entry
+    is moved one slot up (`while cur > 0 and held < d[cur-1]: d[cur] = d[cur-1]; n[cur] = n[cur-1]; cur -= 1`) and the candidate
+    is dropped into the gap (`d[cur] = held; n[cur] = j`).  Slot for slot this is the exchange loop with the candidate
+    travelling in the gap: the view gives every shift its second half (d[cur-1] = d[cur]), reads the held value as d[cur],
+    and turns the final placement into the index store of slot k.  Applied only when every piece is there; the rules of the
+    exchange form then decide the view."""
+    import dataclasses
+    import types
+    from .ir import mk_cmp
+    for li in w.loops.values():
+        if li.kind not in ("while", "for") or len(li.loops) < 2:
+            continue
+        bv = _bubble_view(w, li)
+        if bv is None:
+            continue
+        cvar, c, bound_ok, tests, start = bv
+        strip = lambda t: t[1] if t[0] == "old" else t
+        D = H = None
+        for t in tests:
+            if t[0] == "cmp" and t[1] in ("<", "<="):
+                for a, b in ((t[2], t[3]), (t[3], t[2])):
+                    if b[0] == "idx" and lin_eq(lin(b[2]), {c: 1, 1: -1}) and strip(a) == ("idx", b[1], start) and b[1][0] == "alloc":
+                        D, H = b[1], a
+        if D is None:
+            continue
+        cm1 = None
+        inside = [e for e in w.events if e.kind == "store" and li.lid in e.loops]
+        bufs = []
+        ok = True
+        for e in inside:
+            t = e.target
+            if t[0] == "idx" and t[2] == c and t[1][0] == "alloc" and strip(e.value)[0] == "idx" and strip(e.value)[1] == t[1] \
+                    and lin_eq(lin(strip(e.value)[2]), {c: 1, 1: -1}) and not e.aug:
+                bufs.append(t[1])
+                cm1 = strip(e.value)[2]
+            else:
+                ok = False
+        if not ok or D not in bufs or len(bufs) != len(set(bufs)) or len(bufs) != 2:
+            continue
+        Nb = [b for b in bufs if b != D][0]
+        done = ("call", ("builtin", "<loop-completed>"), (("const", li.lid),), ())
+        F = ("phi", li.lid, cvar) if li.kind == "while" else ("sel", done, ("const", 0), c)
+        cand = w.loops[li.loops[-1]]
+        post = [e for e in w.events if e.kind == "store" and e.loops == li.loops and e.seq > li.last_seq
+                and e.target[0] == "idx" and e.target[1] in (D, Nb)]
+        pd = [e for e in post if e.target == ("idx", D, F) and strip(e.value) == ("idx", D, start) and not e.aug]
+        pn = [e for e in post if e.target == ("idx", Nb, F) and not e.aug]
+        if len(post) != 2 or len(pd) != 1 or len(pn) != 1:
+            continue
+        slot_c = ("idx", D, c)
+
+        def R(t):
+            if t is None or not isinstance(t, tuple) or not t:
+                return t
+            if t == H:
+                return slot_c
+            return tuple(R(x) if isinstance(x, tuple) else x for x in t)
+        events = []
+        has_index_store = any(e.kind == "store" and e.loops == li.loops and e.target == ("idx", Nb, start) and e.seq < li.first_seq
+                              for e in w.events)
+        for e in w.events:
+            if e is pd[0]:
+                continue
+            if e is pn[0]:
+                if not has_index_store:
+                    events.append(dataclasses.replace(e, target=("idx", Nb, start)))
+                continue
+            if li.lid in e.loops:
+                e = dataclasses.replace(e, target=R(e.target), value=R(e.value), args=tuple(R(a) for a in (e.args or ())),
+                                        guards=tuple((R(g), pol) for g, pol in e.guards))
+            events.append(e)
+            if e.kind == "store" and li.lid in e.loops and e.target[0] == "idx" and e.target[2] == c and e.target[1] in bufs:
+                events.append(dataclasses.replace(e, target=("idx", e.target[1], cm1), value=("idx", e.target[1], c)))
+        view = types.SimpleNamespace(**{k: getattr(w, k) for k in ("entry", "repo", "guard_src", "old_cause", "inlined", "binop")
+                                        if hasattr(w, k)})
+        view.guard_src = dict(w.guard_src)
+        for g, src in list(w.guard_src.items()):
+            view.guard_src.setdefault(R(g), src)
+        view.events = events
+        view.loops = dict(w.loops)
+        view.loops[li.lid] = dataclasses.replace(li, cond=R(li.cond))
+        return shift_view(view)  # (one view per scan; a function may hold more than one)
+    return w
+
+
 def find_knn_scans(w: Walker) -> List[KnnScan]:
     out = []
+    w = shift_view(w)
     for li in w.loops.values():
         if li.kind not in ("while", "for") or len(li.loops) < 2:
             continue
